@@ -102,7 +102,7 @@ fn check_all(rep: &mut Report, items: &[u32]) {
 pub fn run(args: &Args, rep: &mut Report) {
     let mut rng = Rng::new(args.seed() ^ 0xC40);
     // exhaustive: all sequences over a 3-letter alphabet up to length 10 (thorough) / 8 (quick)
-    let maxlen = if args.thorough() { 10 } else { 8 };
+    let maxlen = if args.miri() { 4 } else if args.thorough() { 10 } else { 8 };
     let mut exhaustive = 0u64;
     for len in 0..=maxlen {
         let total = 3u64.pow(len as u32);
@@ -121,7 +121,7 @@ pub fn run(args: &Args, rep: &mut Report) {
     }
     rep.count("exhaustive_sequences", exhaustive);
     // PRNG long ones
-    let n = if args.thorough() { 20000 } else { 2000 };
+    let n = if args.miri() { 12 } else if args.thorough() { 20000 } else { 2000 };
     for _ in 0..n {
         let len = rng.usize_below(300);
         let alphabet = 1 + rng.below(5) as u32;
